@@ -39,30 +39,62 @@ func (core *JApiCore) compileCore() *jerr.JApiError {
 
 func (core *JApiCore) checkMacroForRecursion() *jerr.JApiError {
 	for macroName, macro := range core.macro {
-		if je := findPaste(macroName, macro); je != nil {
+		if je := core.findPaste(macroName, macro); je != nil {
 			return je
 		}
 	}
 	return nil
 }
 
-func findPaste(macroName string, d *directive.Directive) *jerr.JApiError {
+func (core *JApiCore) findPaste(macroName string, d *directive.Directive) *jerr.JApiError {
 	if d.Type() == directive.Paste {
-		switch d.NamedParameter("Name") {
+		name := d.NamedParameter("Name")
+		switch name {
 		case "":
 			return d.KeywordError(fmt.Sprintf("%s (%s)", jerr.RequiredParameterNotSpecified, "Name"))
-
 		case macroName:
+			return d.KeywordError("recursion is prohibited")
+		}
+		// A macro pasting another macro which (through any number of further macros)
+		// pastes the first one again is a recursion too.
+		if core.pastesMacro(name, macroName, map[string]struct{}{}) {
 			return d.KeywordError("recursion is prohibited")
 		}
 	} else if d.Children != nil {
 		for _, c := range d.Children {
-			if je := findPaste(macroName, c); je != nil {
+			if je := core.findPaste(macroName, c); je != nil {
 				return je
 			}
 		}
 	}
 	return nil
+}
+
+// pastesMacro reports whether the macro `name` pastes the macro `target`, directly
+// or through other macros. `visited` keeps the macros already expanded.
+func (core *JApiCore) pastesMacro(name, target string, visited map[string]struct{}) bool {
+	if _, ok := visited[name]; ok {
+		return false
+	}
+	visited[name] = struct{}{}
+	m, ok := core.macro[name]
+	if !ok {
+		return false
+	}
+	return core.directivePastesMacro(m, target, visited)
+}
+
+func (core *JApiCore) directivePastesMacro(d *directive.Directive, target string, visited map[string]struct{}) bool {
+	if d.Type() == directive.Paste {
+		name := d.NamedParameter("Name")
+		return name == target || (name != "" && core.pastesMacro(name, target, visited))
+	}
+	for _, c := range d.Children {
+		if core.directivePastesMacro(c, target, visited) {
+			return true
+		}
+	}
+	return false
 }
 
 func (core *JApiCore) collectUserTypes() {
